@@ -764,6 +764,12 @@ func (pe *PolicyEngine) addRepresentativePod(podNs string, objSelectors *k8s.Sin
 		// so a different representative peer will be generated)
 		nsLabelSelector = &metav1.LabelSelector{MatchLabels: defaultNamespaceLabelsMap(podNs)}
 	}
+	if podNs != "" {
+		// the policy's namespace may have neither a Namespace object nor pods in the input resources
+		if err := pe.resolveSingleMissingNamespace(podNs); err != nil {
+			return err
+		}
+	}
 	newPod := &k8s.Pod{
 		// all representative pods are having same name since this name is used only to indicate that this Fake Pod is representative;
 		// this name is not used for storing it in the policy-engine/ comparing with other peers/ or representing it.
